@@ -10,11 +10,19 @@ From Coq Require Strings.String.
 From NextestModel Require Import Base.Tac Proofs.BridgeTac.
 From NextestModel Require gen.GenGlue.
 From NextestModel Require Base.Str Model.Junit.
+From NextestModel Require Model.Filter Model.FutureQueue Model.Unit Model.Run Model.CliRun Model.ExecuteStream Proofs.ExecuteStream.
 Import ListNotations.
 Open Scope N_scope.
 
 Module G := NextestModel.gen.GenGlue.Glue.
 Module MJ := NextestModel.Model.Junit.
+Module MFl := NextestModel.Model.Filter.
+Module ME := NextestModel.Model.ExecuteStream.
+Module PE := NextestModel.Proofs.ExecuteStream.
+Module MRun := NextestModel.Model.Run.
+Module MQ := NextestModel.Model.FutureQueue.
+Module MC := NextestModel.Model.CliRun.
+Module MUn := NextestModel.Model.Unit.
 
 (* ---------------------------------------------------------------- the JUnit writer (Model/Junit.v, C17 / C16) *)
 (* == block conv_junit == *)
@@ -43,15 +51,16 @@ Definition desc_view (first : MJ.jattempt) (rest : list MJ.jattempt) : G.Executi
   | MJ.DFlaky l prior => G.ExecutionDescription_Flaky (att_view n l) (views_from 1 prior)
   | MJ.DFailure f l retries => G.ExecutionDescription_Failure (att_view 1 f) (att_view n l) (views_from 2 retries)
   end.
-
-(* == block junit_script_case (needs conv_junit) == *)
-(* SetupScriptFinished arm: the <testcase> is a success iff is_success() (Pass or Leak), otherwise it carries the kind of
-   the result; its output is stored by the flag that matches *)
+(* quick-junit's TestCaseStatus with the reruns attached to it *)
 Definition status_to_model (s : G.TestCaseStatus) (rs : list MJ.jrerun) : MJ.tstatus :=
   match s with
   | G.TestCaseStatus_Success => MJ.TSuccess rs
   | G.TestCaseStatus_NonSuccess k => MJ.TNonSuccess (kind_to_model k) rs
   end.
+
+(* == block junit_script_case (needs conv_junit) == *)
+(* SetupScriptFinished arm: the <testcase> is a success iff is_success() (Pass or Leak), otherwise it carries the kind of
+   the result; its output is stored by the flag that matches *)
 Lemma gen_junit_script_status_is_model :
   forall r o st,
     (if MJ.jis_success r then Some (MJ.TSuccess [])
@@ -76,7 +85,7 @@ Proof.
   - symmetry. apply gen_junit_script_store_is_model.
 Qed.
 
-(* == block junit_test_case (needs conv_junit junit_script_case) == *)
+(* == block junit_test_case (needs conv_junit) == *)
 (* TestFinished arm. The pieces: which status is the <testcase> and which are reruns (the tuple built from describe()),
    what the loop iterates over, the kind / stored-output flag / output of each rerun, the stored-output flag, output and
    time of the <testcase>. Each piece is compared with the model on its own (by [bridge]); the report element of
@@ -189,4 +198,77 @@ Proof.
   unfold gen_testcase, MJ.tc_reruns. cbn [MJ.tc_main_attempt MJ.tc_status]. split; [reflexivity|].
   destruct (fst (fst (G.junit_test_parts (desc_view first rest) o))); cbn [status_to_model];
     rewrite map_map; reflexivity.
+Qed.
+
+(* ---------------------------------------------------------------- test list -> run count, priority queue (Model/ExecuteStream.v, C01 / C02) *)
+(* == block conv_listed == *)
+Definition mismatch_of_model (m : MFl.mismatch) : G.MismatchReason :=
+  match m with
+  | MFl.MIgnored => G.MismatchReason_Ignored
+  | MFl.MString => G.MismatchReason_String
+  | MFl.MExpression => G.MismatchReason_Expression
+  | MFl.MPartition => G.MismatchReason_Partition
+  | MFl.MDefaultFilter => G.MismatchReason_DefaultFilter
+  end.
+Definition fmatch_of_model (f : MFl.fmatch) : G.FilterMatch :=
+  match f with MFl.Matches => G.FilterMatch_Matches | MFl.Mismatch r => G.FilterMatch_Mismatch (mismatch_of_model r) end.
+(* a listed test as TestList::skip_counts sees it (its filter match), and the list: iter_tests() yields every listed
+   test, test_count is their number *)
+Definition instance_view (l : ME.listed) : G.TestInstance := G.mk_TestInstance (fmatch_of_model (ME.l_match l)).
+Definition list_view (ls : list ME.listed) : G.TestList :=
+  G.mk_TestList (N.of_nat (length ls)) (map instance_view ls).
+
+(* == block run_count (needs conv_listed) == *)
+(* SkipCounts.skipped_tests counts EVERY mismatch reason *)
+Lemma gen_skipped_tests_is_model :
+  forall ls, G.skip_counts_skipped_tests (list_view ls) = N.of_nat (length (ME.unselected ls)).
+Proof.
+  induction ls as [|a r IH]; [reflexivity|].
+  revert IH. unfold G.skip_counts_skipped_tests, list_view, ME.unselected, ME.is_selected, instance_view.
+  cbn -[N.of_nat]. destruct a as [id m th g]. cbn -[N.of_nat].
+  destruct m as [|[]]; cbn -[N.of_nat]; intros IH; try exact IH; rewrite !Nat2N.inj_succ, IH; reflexivity.
+Qed.
+Lemma selected_unselected_length :
+  forall ls, (length (ME.selected ls) + length (ME.unselected ls))%nat = length ls.
+Proof.
+  induction ls as [|a r IH]; [reflexivity|]. unfold ME.selected, ME.unselected in *. cbn [filter].
+  destruct (ME.is_selected a); cbn [negb length]; lia.
+Qed.
+(* run_count() = test_count - skipped = the number of selected tests = initial_run_count *)
+Lemma gen_run_count_is_model :
+  forall ls,
+    G.run_count (G.TestList_test_count (list_view ls)) (G.skip_counts_skipped_tests (list_view ls)) = ME.run_count ls.
+Proof.
+  intros ls. rewrite gen_skipped_tests_is_model. unfold ME.run_count.
+  pose proof (selected_unselected_length ls) as L. unfold G.run_count, list_view. cbn [G.TestList_test_count]. lia.
+Qed.
+(* ... which is what the protocol configuration of Model/Run.v calls the selected tests *)
+Lemma gen_run_count_is_selected :
+  forall rt nc ls total scripts grps,
+    G.run_count (G.TestList_test_count (list_view ls)) (G.skip_counts_skipped_tests (list_view ls)) =
+    N.of_nat (length (MUn.c_sel (MRun.rc_cfg (MRun.mk_rcfg (ME.queue_src rt nc ls) total scripts rt grps)))).
+Proof.
+  intros. rewrite gen_run_count_is_model.
+  destruct (PE.run_count_is_selected rt nc ls total scripts grps) as (_ & _ & H). exact H.
+Qed.
+
+(* == block priority_queue (needs conv_listed) == *)
+(* TestPriorityQueue::new: before the (stable) sort by priority the queue holds every test iter_tests() yields, in that
+   order, selected or not; the sort permutes them *)
+Lemma gen_priority_queue_is_model :
+  forall ls prof st,
+    map G.TestInstanceWithSettings_instance (G.priority_queue_tests (list_view ls) prof st) =
+    G.TestList_iter_tests (list_view ls).
+Proof.
+  intros ls prof st. unfold list_view. cbn [G.TestList_iter_tests].
+  induction ls as [|a r IH]; [reflexivity|].
+  revert IH. unfold G.priority_queue_tests. cbn [G.TestList_iter_tests map]. intros ->.
+  bridge_norm. reflexivity.
+Qed.
+Lemma gen_priority_queue_keeps_all :
+  forall ls prof st, length (G.priority_queue_tests (list_view ls) prof st) = length ls.
+Proof.
+  intros ls prof st.
+  rewrite <- (map_length G.TestInstanceWithSettings_instance), gen_priority_queue_is_model.
+  unfold list_view. cbn [G.TestList_iter_tests]. apply map_length.
 Qed.
